@@ -450,6 +450,15 @@ func Supervise(id, tier string, seed int64, jobs int, onlyIdx int, onlyVariant s
 	sort.Strings(sigs)
 	violations := 0
 	knownObserved := map[string]int{}
+	if len(merged.Failures) > 0 && os.Getenv("VERIF_DUMP") != "" {
+		os.MkdirAll(filepath.Join(root, "replays", id), 0o755)
+		fl := merged.Failures
+		if len(fl) > 500 {
+			fl = fl[:500]
+		}
+		db, _ := json.MarshalIndent(fl, "", " ")
+		os.WriteFile(filepath.Join(root, "replays", id, "dump.json"), db, 0o644)
+	}
 	replayDir := filepath.Join(root, "replays", id)
 	for _, s := range sigs {
 		fs := bySig[s]
